@@ -124,12 +124,15 @@ properties/C04.vos properties/C04.vok properties/C04.required_vos: properties/C0
 properties/C15.vo properties/C15.glob properties/C15.v.beautified properties/C15.required_vo: properties/C15.v gen/Params.vo model/Bytes.vo model/Crc32c.vo model/Sha1.vo model/Id.vo model/Node.vo model/BSearch.vo model/Closest.vo model/RTable.vo model/Lru.vo model/Tokens.vo model/Server.vo proofs/ServerProofs.vo proofs/TokenProofs.vo
 properties/C15.vio: properties/C15.v gen/Params.vio model/Bytes.vio model/Crc32c.vio model/Sha1.vio model/Id.vio model/Node.vio model/BSearch.vio model/Closest.vio model/RTable.vio model/Lru.vio model/Tokens.vio model/Server.vio proofs/ServerProofs.vio proofs/TokenProofs.vio
 properties/C15.vos properties/C15.vok properties/C15.required_vos: properties/C15.v gen/Params.vos model/Bytes.vos model/Crc32c.vos model/Sha1.vos model/Id.vos model/Node.vos model/BSearch.vos model/Closest.vos model/RTable.vos model/Lru.vos model/Tokens.vos model/Server.vos proofs/ServerProofs.vos proofs/TokenProofs.vos
+proofs/BencodeProofs.vo proofs/BencodeProofs.glob proofs/BencodeProofs.v.beautified proofs/BencodeProofs.required_vo: proofs/BencodeProofs.v model/Bytes.vo model/Server.vo model/Bencode.vo
+proofs/BencodeProofs.vio: proofs/BencodeProofs.v model/Bytes.vio model/Server.vio model/Bencode.vio
+proofs/BencodeProofs.vos proofs/BencodeProofs.vok proofs/BencodeProofs.required_vos: proofs/BencodeProofs.v model/Bytes.vos model/Server.vos model/Bencode.vos
 proofs/KrpcProofs.vo proofs/KrpcProofs.glob proofs/KrpcProofs.v.beautified proofs/KrpcProofs.required_vo: proofs/KrpcProofs.v model/Bytes.vo model/Id.vo model/Server.vo model/Bencode.vo model/Krpc.vo model/Check10.vo proofs/Sweep.vo proofs/IdProofs.vo proofs/ClosestProofs.vo proofs/RTableProofs.vo proofs/TokenProofs.vo
 proofs/KrpcProofs.vio: proofs/KrpcProofs.v model/Bytes.vio model/Id.vio model/Server.vio model/Bencode.vio model/Krpc.vio model/Check10.vio proofs/Sweep.vio proofs/IdProofs.vio proofs/ClosestProofs.vio proofs/RTableProofs.vio proofs/TokenProofs.vio
 proofs/KrpcProofs.vos proofs/KrpcProofs.vok proofs/KrpcProofs.required_vos: proofs/KrpcProofs.v model/Bytes.vos model/Id.vos model/Server.vos model/Bencode.vos model/Krpc.vos model/Check10.vos proofs/Sweep.vos proofs/IdProofs.vos proofs/ClosestProofs.vos proofs/RTableProofs.vos proofs/TokenProofs.vos
-properties/C10.vo properties/C10.glob properties/C10.v.beautified properties/C10.required_vo: properties/C10.v model/Bytes.vo model/Id.vo model/Server.vo model/Bencode.vo model/Krpc.vo model/Check10.vo proofs/KrpcProofs.vo
-properties/C10.vio: properties/C10.v model/Bytes.vio model/Id.vio model/Server.vio model/Bencode.vio model/Krpc.vio model/Check10.vio proofs/KrpcProofs.vio
-properties/C10.vos properties/C10.vok properties/C10.required_vos: properties/C10.v model/Bytes.vos model/Id.vos model/Server.vos model/Bencode.vos model/Krpc.vos model/Check10.vos proofs/KrpcProofs.vos
+properties/C10.vo properties/C10.glob properties/C10.v.beautified properties/C10.required_vo: properties/C10.v model/Bytes.vo model/Id.vo model/Server.vo model/Bencode.vo model/Krpc.vo model/Check10.vo proofs/BencodeProofs.vo proofs/KrpcProofs.vo
+properties/C10.vio: properties/C10.v model/Bytes.vio model/Id.vio model/Server.vio model/Bencode.vio model/Krpc.vio model/Check10.vio proofs/BencodeProofs.vio proofs/KrpcProofs.vio
+properties/C10.vos properties/C10.vok properties/C10.required_vos: properties/C10.v model/Bytes.vos model/Id.vos model/Server.vos model/Bencode.vos model/Krpc.vos model/Check10.vos proofs/BencodeProofs.vos proofs/KrpcProofs.vos
 properties/C05.vo properties/C05.glob properties/C05.v.beautified properties/C05.required_vo: properties/C05.v model/Bytes.vo model/Id.vo model/Server.vo model/Bencode.vo model/Krpc.vo model/Check10.vo proofs/KrpcProofs.vo
 properties/C05.vio: properties/C05.v model/Bytes.vio model/Id.vio model/Server.vio model/Bencode.vio model/Krpc.vio model/Check10.vio proofs/KrpcProofs.vio
 properties/C05.vos properties/C05.vok properties/C05.required_vos: properties/C05.v model/Bytes.vos model/Id.vos model/Server.vos model/Bencode.vos model/Krpc.vos model/Check10.vos proofs/KrpcProofs.vos
